@@ -1,4 +1,5 @@
 import DirectVerif.Lemmas.C01DftND
+import DirectVerif.Lemmas.C01Validate
 /-!
 # C01 — the n-D transform as ONE multi-index sum (any number of axes, any axis order, centred or not)
 
@@ -336,6 +337,30 @@ theorem dftMat_eq_exp (inverse : Bool) (nm : Norm) (m k j : Nat) :
       Complex.exp (2 * Real.pi * Complex.I * (((if inverse then 1 else -1) * ((j : ℤ) * (k : ℤ)) : ℤ) : ℂ) / ((m + 1 : ℕ) : ℂ)) := by
   rw [← ZMod.stdAddChar_coe]
   cases inverse <;> simp [dftMat]
+
+/-! ## call sites: the theorems apply to every `dim` form found under `direct/` -/
+
+/-- **for every call site that passes `CallSite.ok`** and every axis tuple its `dim` can denote: on every well-formed
+complex tensor whose rank covers the tuple, the operators are an inverse pair (all flags) and every entry of the output
+is the closed-form multi-index sum -/
+theorem callsite_laws (site : CallSite) (h : site.ok = true) (d : List Int) (hd : d ∈ site.dims)
+    (t : Tensor ℂ) (hwf : t.data.length = prod t.shape) (hr : ∀ a ∈ d, a.toNat < t.shape.length) (cfg : Cfg) :
+    (ifft2 (tensorBackend dftF (d.map Int.toNat)) cfg (fft2 (tensorBackend dftF (d.map Int.toNat)) cfg t) = t ∧
+     fft2 (tensorBackend dftF (d.map Int.toNat)) cfg (ifft2 (tensorBackend dftF (d.map Int.toNat)) cfg t) = t) ∧
+    ∀ (inverse : Bool) (idx : List Nat), InRange t.shape idx →
+      ((if inverse then ifft2 else fft2) (tensorBackend dftF (d.map Int.toNat)) cfg t).data.getD (Tensor.offset t.shape idx) default =
+        nSum (fun a => kernel cfg.centered inverse (normOf cfg) (t.shape.getD a 1)) t.shape (d.map Int.toNat) idx
+          (fun idx' => t.data.getD (Tensor.offset t.shape idx') default) := by
+  have hacc : dimsAcceptable d = true := by
+    simp only [CallSite.ok, Bool.and_eq_true, List.all_eq_true] at h
+    exact h.1.2 d hd
+  have hnd := C01Validate.dimsAcceptable_nodup d hacc
+  have hr' : ∀ a ∈ d.map Int.toNat, a < t.shape.length := by
+    intro a ha
+    obtain ⟨b, hb, rfl⟩ := List.mem_map.mp ha
+    exact hr b hb
+  exact ⟨ifft2_fft2_id_tensor_dft t _ hnd hwf hr' cfg,
+    fun inverse idx hidx => fft2_nd_sum t _ hnd hwf hr' cfg inverse idx hidx⟩
 
 /-! ## non-vacuity -/
 
